@@ -361,6 +361,7 @@ func runC20(ctx *h.Ctx) int {
 		k.Count("evaluations", 1)
 		if !base.OK() {
 			k.Count("base_rejected", 1)
+			k.Count("base_rejected: "+rejectFamily(base.ErrString()), 1)
 			return
 		}
 		inj := inject(k, g, prog, base.Out)
@@ -403,11 +404,11 @@ func runC20(ctx *h.Ctx) int {
 		}
 		k.Count("rejected_at_line:"+inj.kind, 1)
 		k.Count("error: "+rejectFamily(pe.Message), 1)
-		k.Nontrivial(inj.kind, pe.LineNumberStart%50, len(prog.Items))
+		k.Nontrivial(inj.kind, pe.LineNumberStart, len(pr.Src)/16)
 		k.Sample(inj.kind, map[string]interface{}{"source": pr.Src, "error": pe.Error()})
 	})
 	return ctx.Finish(
-		"valid generated files with exactly one injected violation at a random position under scrambled layouts: break outside loop/switch (incl. inline map scripts, poryswitch cases, after a closed loop), continue outside a loop (incl. in a switch outside loops), continue not last in its block, duplicate case value (literal and via a constant), second default, redefined constant, text/movement statement named like a generated label, label statement equal to a generated sub-label of its script / the script's own name / a text label (anywhere, incl. unreachable code). Oracle: the result is an error (never output), it is a located error, and its start line lies inside the offending construct's source line range (either occurrence for clashes between two definitions). distinct = (kind, line class, file size)",
+		"valid generated files with exactly one injected violation at a random position under scrambled layouts: break outside loop/switch (incl. inline map scripts, poryswitch cases, after a closed loop), continue outside a loop (incl. in a switch outside loops), continue not last in its block, duplicate case value (literal and via a constant), second default, redefined constant, text/movement statement named like a generated label, label statement equal to a generated sub-label of its script / the script's own name / a text label (anywhere, incl. unreachable code). Oracle: the result is an error (never output), it is a located error, and its start line lies inside the offending construct's source line range (either occurrence for clashes between two definitions). distinct = (kind, error line, source length / 16)",
 		ctx.N(500, 5000),
 		[]string{"the base program (before injection) compiles; the injected construct is the only violation"})
 }
